@@ -82,3 +82,21 @@ Example sparse_example :
   Forall wf_sstage st /\ sitems (spipeline st [(0, 5); (1, 6)]%Z) = [(11, 8); (13, 7)]%Z /\ slen (spipeline st [(0, 5); (1, 6)]%Z) = 2%nat.
 Proof. split; [|split; vm_compute; reflexivity]. repeat constructor; cbn; intuition discriminate. Qed.
 End Sparse.
+
+(* EncodeCatRows('onehot') over a dense row (the flat one-hot form Finalize gives the evaluators): the row is edited in place - for each categorical, from the last to the
+   first, pop / extend / two slice assignments - and the result is, for EVERY row (any number of categoricals, adjacent, first or last, with any numbers of levels), the
+   row with every categorical replaced where it stood by the entries of its one-hot code; nothing else moves *)
+From Coba Require C13.ModelEncodeCat C13.ProofsEncodeCat.
+Theorem flat_onehot_encoding_is_the_in_place_replacement : forall o, ModelEncodeCat.encode_flat o = ModelEncodeCat.eager_flat o.
+Proof. exact ProofsEncodeCat.encode_flat_eq_eager. Qed.
+Print Assumptions flat_onehot_encoding_is_the_in_place_replacement.
+(* one edit: the pop / extend / double slice assignment puts the code where the categorical was *)
+Theorem flat_onehot_one_edit : forall k o, (k < length o)%nat ->
+  ModelEncodeCat.splice1 k o = firstn k o ++ ModelEncodeCat.as_onehot (nth k o (ModelEncodeCat.Num 0)) ++ skipn (S k) o.
+Proof. exact ProofsEncodeCat.splice1_spec. Qed.
+Print Assumptions flat_onehot_one_edit.
+Example flat_onehot_example :
+  ModelEncodeCat.encode_flat [ModelEncodeCat.Num 3; ModelEncodeCat.Cat 2 3; ModelEncodeCat.Num 5; ModelEncodeCat.Cat 0 2; ModelEncodeCat.Cat 1 3]
+  = [ModelEncodeCat.Num 3; ModelEncodeCat.Num 0; ModelEncodeCat.Num 0; ModelEncodeCat.Num 1; ModelEncodeCat.Num 5; ModelEncodeCat.Num 1; ModelEncodeCat.Num 0;
+     ModelEncodeCat.Num 0; ModelEncodeCat.Num 1; ModelEncodeCat.Num 0].
+Proof. vm_compute. reflexivity. Qed.
